@@ -153,3 +153,35 @@ func TestRegSendFailureAndDial(t *testing.T) {
 		},
 	})
 }
+
+// seeded change C19-b: streamClose skipped removeStream when the drpc stream's Close()
+// returned an error (dead transport), leaving the ended stream in every index for ever.
+// Every way a stream ends, with Close() failing always / only the first time.
+func TestRegCloseReturnsError(t *testing.T) {
+	ends := [][]Op{
+		{{Kind: opClose, A: 0, Pace: true}},
+		{{Kind: opClose, A: 0, Via: 1, Pace: true}},
+		{{Kind: opRecvErr, A: 0, Pace: true}},
+		{{Kind: opHandlerErr, A: 0, Pace: true}},
+		{{Kind: opBroadcast, Tags: []int{0}, N: 1, Pace: true}}, // first send fails (FailSendAt 1)
+	}
+	for ce := 1; ce <= 2; ce++ {
+		for i, end := range ends {
+			s0 := StreamSpec{Gate: gateHealthy, Peer: 0, Queue: 2, Tags: []int{0, 1}, CloseErr: ce, Incoming: i%2 == 1}
+			if i == 4 {
+				s0.FailSendAt = 1
+			}
+			ops := append(append([]Op(nil), end...),
+				Op{Kind: opSendById, Peers: []int{0}, N: 1, Pace: true},
+				Op{Kind: opBroadcast, Tags: []int{0, 1}, N: 2, Pace: true},
+				Op{Kind: opRemoveTagsById, A: 0, Tags: []int{0}, Pace: true})
+			ps := peersOK(2)
+			ps[0].Dial = dialError
+			one(t, Case{
+				Peers:   ps,
+				Streams: []StreamSpec{s0, {Gate: gateHealthy, Peer: 1, Queue: 2, Tags: []int{0}}},
+				Initial: 2, Workers: 1, DialQueue: 2, Ops: ops,
+			})
+		}
+	}
+}
